@@ -58,6 +58,9 @@ type Client struct {
 	transports     map[string]Transport
 	cancelFuncs    *list.List
 	cancelLock     sync.Mutex
+	// pluginLock: Use and Unuse change the two handler chains together, a call takes both
+	// as they are when it begins
+	pluginLock sync.RWMutex
 }
 
 // NewClient returns an instance of Client.
@@ -128,7 +131,11 @@ func (c *Client) InvokeContext(ctx context.Context, name string, args []interfac
 		ctx = WithContext(ctx, clientContext)
 	}
 	clientContext.Init(c, interfaceType)
-	return c.invokeManager.Handler().(NextInvokeHandler)(ctx, name, args)
+	c.pluginLock.RLock()
+	invokeHandler := c.invokeManager.Handler().(NextInvokeHandler)
+	clientContext.ioHandler = c.ioManager.Handler().(NextIOHandler)
+	c.pluginLock.RUnlock()
+	return invokeHandler(ctx, name, args)
 }
 
 // Invoke the remote method.
@@ -157,6 +164,9 @@ func (c *Client) Call(ctx context.Context, name string, args []interface{}) (res
 
 // Request data to the server and returns the response data.
 func (c *Client) Request(ctx context.Context, request []byte) (response []byte, err error) {
+	if clientContext := GetClientContext(ctx); clientContext != nil && clientContext.ioHandler != nil {
+		return clientContext.ioHandler(ctx, request)
+	}
 	return c.ioManager.Handler().(NextIOHandler)(ctx, request)
 }
 
@@ -210,6 +220,8 @@ func (c *Client) Abort() {
 // Use plugin handlers.
 func (c *Client) Use(handler ...PluginHandler) *Client {
 	invokeHandlers, ioHandlers, invokeObjects, ioObjects := separatePluginHandlers(handler)
+	c.pluginLock.Lock()
+	defer c.pluginLock.Unlock()
 	usePluginHandlers(c.invokeManager, invokeHandlers, invokeObjects)
 	usePluginHandlers(c.ioManager, ioHandlers, ioObjects)
 	return c
@@ -218,6 +230,8 @@ func (c *Client) Use(handler ...PluginHandler) *Client {
 // Unuse plugin handlers.
 func (c *Client) Unuse(handler ...PluginHandler) *Client {
 	invokeHandlers, ioHandlers, invokeObjects, ioObjects := separatePluginHandlers(handler)
+	c.pluginLock.Lock()
+	defer c.pluginLock.Unlock()
 	unusePluginHandlers(c.invokeManager, invokeHandlers, invokeObjects)
 	unusePluginHandlers(c.ioManager, ioHandlers, ioObjects)
 	return c
